@@ -48,6 +48,8 @@ MUTANTS = [
     ("c02-fkm-close-strict", "C02", R + "fkm.py",
      "if np.abs(current-last0) >= np.abs(last0-last1):",
      "if np.abs(current-last0) > np.abs(last0-last1):"),
+    ("c02-revert-underflow", "C02", R + "general.py",
+     "    peak_turns = changes_direction(diffs[:-1], diffs[1:])\n", "    peak_turns = diffs[:-1] * diffs[1:] < 0.0\n"),
     ("c02-plateau-last-sample", "C02", R + "general.py",
      "plateau_turns[dups_starts[np.where(diffs[dups_starts] * diffs[dups_ends+1] < 0)]] = True",
      "plateau_turns[dups_ends[np.where(diffs[dups_starts] * diffs[dups_ends+1] < 0)]] = True"),
